@@ -5,7 +5,7 @@
 #![allow(clippy::too_many_arguments)]
 use concordium_base::{
     common::{to_bytes, Serial},
-    curve_arithmetic::Curve,
+    curve_arithmetic::{Curve, Field},
     id::{
         constants::{ArCurve, AttributeKind},
         id_proof_types::*,
@@ -267,7 +267,7 @@ pub fn gen_range_stmt(r: &mut Rng, tag: u8, v: &A, web3: bool) -> St {
         },
         10 if web3 => match v {                                 // mixed kinds
             A::S(_) => (A::N(r.u64_edge()), v.clone()),
-            _ => (A::N(0), A::S(gen_string(r, 1 + r.below(31) as usize))),
+            _ => { let l = 1 + r.below(31) as usize; (A::N(0), A::S(gen_string(r, l))) }
         },
         11 if web3 => match v {                                 // numeric vs timestamp bounds
             A::N(n) | A::T(n) => (A::T(n.saturating_sub(k)), A::N(n.saturating_add(k))),
@@ -354,7 +354,8 @@ fn stmt_case<T: Mk>(r: &mut Rng, csprng: &mut StdRng, global: &GlobalContext<ArC
     let w: World<T> = build_world(global, al, csprng);
     let filler = Commitment(ArCurve::hash_to_group(b"filler").unwrap());
     let cred: ArCurve = ArCurve::hash_to_group(&r.bytes(8)).unwrap();
-    let challenge = r.bytes(*r.pick(&[0usize, 1, 32, 32, 32, 33]));
+    let clen = *r.pick(&[0usize, 1, 32, 32, 32, 33]);
+    let challenge = r.bytes(clen);
     let stmts: Vec<AtomicStatement<ArCurve, AttributeTag, T>> = ss.iter().map(|s| mk_stmt::<T, _>(s, AttributeTag(s.tag()))).collect();
     let full = StatementWithContext { credential: cred, statement: Statement { statements: stmts.clone() } };
     let coms = dep_coms(&w.coms, filler);
@@ -635,8 +636,9 @@ fn frame_mode(seed: u64, n: u64) {
     let mut r = Rng::new(seed);
     for _ in 0..n {
         let k = r.below(6) as usize;
-        let dom = r.bytes(r.below(20) as usize);
-        let items: Vec<(Vec<u8>, Vec<u8>)> = (0..k).map(|_| (r.bytes(r.below(12) as usize), r.bytes(r.below(40) as usize))).collect();
+        let dl = r.below(20) as usize;
+        let dom = r.bytes(dl);
+        let items: Vec<(Vec<u8>, Vec<u8>)> = (0..k).map(|_| { let a = r.below(12) as usize; let b = r.below(40) as usize; (r.bytes(a), r.bytes(b)) }).collect();
         let mut t1 = TranscriptProtocolV1::with_domain(&dom);
         let mut t0 = RandomOracle::domain(&dom);
         for (l, m) in items.iter() {
